@@ -173,11 +173,94 @@ def rule_mutself(text, ctx, where):
     return head + "\n    let mut self_ = self;" + "".join(out), 1
 
 
-RULES = {"mutself": rule_mutself, "fmtmsg": rule_fmtmsg, "pubfields": rule_pubfields, "T": rule_T, "attrs": rule_attrs, "cell": rule_cell}
+def _receiver_start(m, dot):
+    """m masked text, dot = index of the '.' that starts `.iter()`/`.as_ref()`; walk back over a simple
+    place expression  ident(.ident)*  ; returns its start or raises"""
+    j = dot
+    while j > 0 and (m[j - 1].isalnum() or m[j - 1] in "_."):
+        j -= 1
+    # allow the receiver to sit on the previous line(s): `expr\n    .as_ref()`
+    if j == dot:
+        k = dot
+        while k > 0 and m[k - 1].isspace():
+            k -= 1
+        j = k
+        while j > 0 and (m[j - 1].isalnum() or m[j - 1] in "_."):
+            j -= 1
+        if j == k:
+            raise AnchorLost("iterator rule: receiver is not a simple place expression")
+    return j
+
+
+def _split_closure(arg):
+    """arg: text of a closure `|PAT| BODY` or a function path. returns (pat, body) ; for a path F: ("__x", "F(__x)")"""
+    a = arg.strip()
+    if a.startswith("|"):
+        e = a.index("|", 1)
+        return a[1:e].strip(), a[e + 1:].strip()
+    if re.fullmatch(r"[A-Za-z_][\w:]*", a):
+        return "__x", f"{a}(__x)"
+    raise AnchorLost(f"iterator rule: unsupported callable {a[:40]!r}")
+
+
+def rule_iter_any(text, ctx, where):
+    """`X.iter().any(F)`  ->  index loop with early exit (std's `Iterator::any` on a slice iterator,
+    assumed semantics: true iff F holds for some element, elements visited in order, stops at the first hit)"""
+    n = 0
+    while True:
+        m = mask(text)
+        mt = re.search(r"\s*\.iter\(\)\s*\.any\(", m)
+        if not mt:
+            break
+        dot = m.index(".", mt.start())
+        s0 = _receiver_start(m, dot if mt.start() == dot else mt.start())
+        recv = text[s0:mt.start()].strip()
+        b = mt.end() - 1
+        e = match_delim(m, b)
+        pat, body = _split_closure(text[b + 1:e])
+        i, r = f"__i{n}", f"__r{n}"
+        rep = (f"({{ let mut {i}: usize = 0; let mut {r} = false; "
+               f"while {i} < {recv}.len() {{ let {pat} = &{recv}[{i}]; if {body} {{ {r} = true; break; }} {i} += 1; }} {r} }})")
+        text = text[:s0] + rep + text[e + 1:]
+        n += 1
+    return text, n
+
+
+def rule_opt_map_or(text, ctx, where):
+    """`X.as_ref().map(F).unwrap_or(D)`  ->  `(match X.as_ref() { Some(v) => F(v), None => D })`"""
+    n = 0
+    while True:
+        m = mask(text)
+        mt = re.search(r"\s*\.as_ref\(\)\s*\.map\(", m)
+        if not mt:
+            break
+        s0 = _receiver_start(m, mt.start())
+        recv = text[s0:mt.start()].strip()
+        b = mt.end() - 1
+        e = match_delim(m, b)
+        pat, body = _split_closure(text[b + 1:e])
+        m2 = re.match(r"\s*\.unwrap_or\(", m[e + 1:])
+        if not m2:
+            raise AnchorLost(f"{where}: opt_map_or: `.map(..)` not followed by `.unwrap_or(..)`")
+        b2 = e + 1 + m2.end() - 1
+        e2 = match_delim(m, b2)
+        dflt = text[b2 + 1:e2].strip()
+        rep = f"(match {recv}.as_ref() {{ Some({pat}) => {body}, None => {dflt} }})"
+        text = text[:s0] + rep + text[e2 + 1:]
+        n += 1
+    return text, n
+
+
+RULES = {"iter_any": rule_iter_any, "opt_map_or": rule_opt_map_or, "mutself": rule_mutself, "fmtmsg": rule_fmtmsg, "pubfields": rule_pubfields, "T": rule_T, "attrs": rule_attrs, "cell": rule_cell}
 
 
 def apply_rules(text, rules, ctx, counts, where):
     for r in rules:
+        if isinstance(r, tuple) and r[0] == "strip":
+            k = text.count(r[1])
+            text = text.replace(r[1], "")
+            counts["strip " + r[1]] = counts.get("strip " + r[1], 0) + k
+            continue
         if isinstance(r, tuple) and r[0] == "cell":
             ctx.cell_fields = list(r[1])
             fn = rule_cell
